@@ -1,12 +1,413 @@
-/-! Model for property C18 (core-only: no Mathlib import, so the driver links). -/
+import OnetVerif.Model.Util
+import OnetVerif.Model.C20
+/-! Model for property C18: configuration files (`app/config.go`) from the decoded TOML structures
+onwards — private configuration → server identity (`LoadCothority`, `GetServerIdentity`,
+config.go:71-123), group definition → identities and roster (`ReadGroupDescToml`,
+`ToServerIdentity`, 280-303, 338-355), service entries map → slice of identities
+(`parseServiceConfig`, `parseServerServiceConfig`, `parseServiceIdentity`, 505-580), write-out
+(`Group.Toml`, `GroupToml.String`, 233-264, 308-335) and the roster-id pre-image
+(`tree.go:417-479`).  Core-only.
+
+Conventions: strings are byte lists; a key (kyber point or scalar) is modelled by its canonical
+marshalled bytes; whether kyber's `UnmarshalBinary` accepts decoded bytes as a point is an input
+(`Key.ok`), because point validity is not modelled.  A Go map is the list of its entries in
+iteration order — the *order parameter*; theorems quantify over all permutations of it.  The
+TOML library is outside the model: encode-then-decode of a structure is that structure. -/
 namespace C18
 
+abbrev Str := List Nat
+abbrev Bytes := List Nat
+
+/-! ### hex (encoding/hex, kyber util/encoding `getHex`) -/
+
+def hexVal (c : Nat) : Option Nat :=
+  if 48 ≤ c ∧ c ≤ 57 then some (c - 48)
+  else if 97 ≤ c ∧ c ≤ 102 then some (c - 87)
+  else if 65 ≤ c ∧ c ≤ 70 then some (c - 55)
+  else none
+
+/-- `hex.Decode` of an even-length text (an odd trailing character is an error) -/
+def hexDecode : Str → Option Bytes
+  | [] => some []
+  | [_] => none
+  | a :: b :: r =>
+    match hexVal a, hexVal b, hexDecode r with
+    | some x, some y, some t => some ((x * 16 + y) :: t)
+    | _, _, _ => none
+
+def hexDigit (n : Nat) : Nat := if n < 10 then 48 + n else 87 + n
+
+/-- `hex.EncodeToString` (lower case) -/
+def hexEncode : Bytes → Str
+  | [] => []
+  | b :: r => hexDigit (b / 16) :: hexDigit (b % 16) :: hexEncode r
+
+/-- `getHex(strings.NewReader(s), l)` (encoding.go:83-99): reads exactly `2*l` characters; an empty
+string is `io.EOF`, a short one "didn't get enough bytes", anything after `2*l` characters is
+ignored. -/
+def getHex (s : Str) (l : Nat) : Option Bytes :=
+  if s = [] then none
+  else if s.length < 2 * l then none
+  else hexDecode (s.take (2 * l))
+
+/-! ### suites, registry, decoded TOML structures -/
+
+/-- a kyber suite as far as the configuration code sees it -/
+structure Suite where
+  name  : Str      -- `suite.String()`
+  psize : Nat      -- `Point().MarshalSize()`
+  ssize : Nat      -- `Scalar().MarshalSize()`
+  ptype : Nat      -- the Go type of the suite's points (points of different types cannot be added)
+  deriving DecidableEq, Repr
+
+/-- `suites.Find(name)`: lookup by lower-cased name -/
+def findSuite (suites : List Suite) (name : Str) : Option Suite :=
+  suites.find? fun s => C20.goLower s.name == C20.goLower name
+
+/-- `onet.ServiceFactory.Suite(name)`: `none` when the service is unknown or registered without a suite -/
+def regSuite (reg : List (Str × Suite)) (name : Str) : Option Suite :=
+  (reg.find? fun e => e.1 == name).map (·.2)
+
+/-- a key as written in the file plus whether kyber accepts its decoded bytes as a point -/
+structure Key where
+  s  : Str
+  ok : Bool
+  deriving DecidableEq, Repr
+
+/-- one entry of a `Services` map (`ServiceConfig` / `ServerServiceConfig`; `priv = ""` in group files) -/
+structure SvcCfg where
+  name  : Str
+  suite : Str
+  pub   : Key
+  priv  : Str
+  deriving DecidableEq, Repr
+
+/-- `ServerToml` (config.go:205-212); `services` = the map's entries in iteration order -/
+structure ServerToml where
+  address     : Str
+  suite       : Str
+  pub         : Key
+  description : Str
+  url         : Str
+  services    : List SvcCfg
+  deriving DecidableEq, Repr
+
+/-- `CothorityConfig` (config.go:33-44) -/
+structure PrivCfg where
+  suite       : Str
+  pub         : Key
+  priv        : Str
+  address     : Str
+  description : Str
+  url         : Str
+  wsKey       : Str      -- WebSocketTLSCertificateKey
+  services    : List SvcCfg
+  deriving DecidableEq, Repr
+
+/-- `network.ServiceIdentity` -/
+structure SvcId where
+  name  : Str
+  suite : Str
+  pub   : Bytes
+  priv  : Bytes
+  deriving DecidableEq, Repr
+
+/-- `network.ServerIdentity` as far as configuration files determine it -/
+structure ServerId where
+  pub         : Bytes
+  ptype       : Nat        -- dynamic type of `Public`
+  services    : List SvcId
+  address     : Str
+  description : Str
+  url         : Str
+  priv        : Option Bytes
+  deriving DecidableEq, Repr
+
+inductive Res (α : Type) where
+  | ok (a : α)
+  | err
+  | panic
+  deriving Repr
+
+/-- `encoding.StringHexToPoint(suite, s)`: the hex text must hold a point of the suite -/
+def decPoint (S : Suite) (k : Key) : Option Bytes :=
+  match getHex k.s S.psize with
+  | some b => if k.ok then some b else none
+  | none => none
+
+/-- `suite.Scalar()` marshalled: the zero scalar -/
+def zeroScalar (S : Suite) : Bytes := List.replicate S.ssize 0
+
+/-! ### service entries → identities (config.go:505-580) -/
+
+/-- `parseServiceIdentity` -/
+def parseServiceIdentity (reg : List (Str × Suite)) (c : SvcCfg) : Res SvcId :=
+  match regSuite reg c.name with
+  | none => .err                                   -- not registered with a suite
+  | some S =>
+    if S.name ≠ c.suite then .panic                -- "Using suite … but … is required"
+    else
+      let priv? : Option Bytes := if c.priv ≠ [] then getHex c.priv S.ssize else some (zeroScalar S)
+      match priv? with
+      | none => .err
+      | some priv =>
+        match decPoint S c.pub with
+        | none => .err
+        | some pub => .ok { name := c.name, suite := S.name, pub := pub, priv := priv }
+
+/-- the loop of `parseServiceConfig` / `parseServerServiceConfig` over the map in iteration order:
+entries that give an error are skipped, a panic ends everything (`none`) -/
+def collectServices (reg : List (Str × Suite)) : List SvcCfg → Option (List SvcId)
+  | [] => some []
+  | c :: r =>
+    match parseServiceIdentity reg c with
+    | .panic => none
+    | .err => collectServices reg r
+    | .ok sid => (collectServices reg r).map (sid :: ·)
+
+/-- `ServiceIdentities.Less`: `strings.Compare(a.Name, b.Name) == -1`, used as `¬ b < a` -/
+def nameLe (a b : SvcId) : Bool := decide (a.name ≤ b.name)
+
+/-- `sort.Sort(network.ServiceIdentities(si))` — names are map keys, hence distinct, so every
+correct sorting algorithm returns the same slice -/
+def sortServices (l : List SvcId) : List SvcId := l.mergeSort nameLe
+
+/-- `parseServiceConfig` / `parseServerServiceConfig` as repaired (sorted by name) -/
+def parseServices (reg : List (Str × Suite)) (entries : List SvcCfg) : Option (List SvcId) :=
+  (collectServices reg entries).map sortServices
+
+/-- the code before the repair: slice in map iteration order -/
+def parseServicesOld (reg : List (Str × Suite)) (entries : List SvcCfg) : Option (List SvcId) :=
+  collectServices reg entries
+
+/-! ### group definition (config.go:280-303, 338-355) -/
+
+/-- `"Ed25519"` -/
+def ed25519 : Str := [69, 100, 50, 53, 53, 49, 57]
+
+/-- backwards compatibility: an empty suite name means Ed25519 -/
+def defaultSuite (s : Str) : Str := if s = [] then ed25519 else s
+
+/-- `ServerToml.ToServerIdentity` (after the suite defaulting of `ReadGroupDescToml`) -/
+def toServerIdentity (suites : List Suite) (reg : List (Str × Suite)) (s : ServerToml) : Res ServerId :=
+  match findSuite suites (defaultSuite s.suite) with
+  | none => .err
+  | some S =>
+    match decPoint S s.pub with
+    | none => .err
+    | some pub =>
+      match parseServices reg s.services with
+      | none => .panic
+      | some svcs =>
+        .ok { pub := pub, ptype := S.ptype, services := svcs, address := s.address,
+              description := s.description, url := s.url, priv := none }
+
+/-- the conversion loop of `ReadGroupDescToml`: all servers in file order; the first failure ends the read -/
+def readServers (suites : List Suite) (reg : List (Str × Suite)) : List ServerToml → Res (List ServerId)
+  | [] => .ok []
+  | s :: r =>
+    match toServerIdentity suites reg s with
+    | .err => .err
+    | .panic => .panic
+    | .ok si =>
+      match readServers suites reg r with
+      | .ok l => .ok (si :: l)
+      | .err => .err
+      | .panic => .panic
+
+/-- `onet.NewRoster` sums the public keys into the aggregate key: adding points of different Go
+types is a failed type assertion -/
+def sameType (g : List ServerId) : Bool :=
+  match g with
+  | [] => true
+  | s :: r => r.all (·.ptype == s.ptype)
+
+/-- `ReadGroupDescToml` -/
+def readGroup (suites : List Suite) (reg : List (Str × Suite)) (cfg : List ServerToml) : Res (List ServerId) :=
+  match readServers suites reg cfg with
+  | .ok g => if sameType g then .ok g else .panic
+  | .err => .err
+  | .panic => .panic
+
+/-- the byte string `NewRoster` / `Roster.GetID` feed to SHA-256 (tree.go:430-441): every server's
+public key followed by its service keys in slice order -/
+def rosterPre : List ServerId → Bytes
+  | [] => []
+  | s :: r => s.pub ++ (s.services.map (·.pub)).flatten ++ rosterPre r
+
+/-- `"Description of your server"` (`GroupToml.String`, config.go:326-330) -/
+def placeholder : Str :=
+  [68, 101, 115, 99, 114, 105, 112, 116, 105, 111, 110, 32, 111, 102, 32, 121, 111, 117, 114, 32,
+   115, 101, 114, 118, 101, 114]
+
+/-- `Group.Toml(suite)` followed by `GroupToml.String()`; `none` = nil dereference on a service that
+is not registered with a suite any more -/
+def writeServer (S : Suite) (reg : List (Str × Suite)) (si : ServerId) : Option ServerToml :=
+  let svcs := si.services.mapM fun sid =>
+    (regSuite reg sid.name).map fun S' =>
+      ({ name := sid.name, suite := S'.name, pub := { s := hexEncode sid.pub, ok := true }, priv := [] } : SvcCfg)
+  svcs.map fun svcs =>
+    { address := si.address, suite := S.name,
+      -- the written key is a point of suite `S` when it is a point of that type at all
+      pub := { s := hexEncode si.pub, ok := S.ptype == si.ptype },
+      description := if si.description = [] then placeholder else si.description,
+      url := si.url, services := svcs }
+
+def writeGroup (S : Suite) (reg : List (Str × Suite)) (g : List ServerId) : Option (List ServerToml) :=
+  g.mapM (writeServer S reg)
+
+/-! ### private configuration (config.go:71-123) -/
+
+def httpsPrefix : Str := [104, 116, 116, 112, 115, 58, 47, 47]
+
+/-- `fmt.Sprintf("%d", n)` for an `int` -/
+def fmtInt (n : Int) : Str :=
+  if n < 0 then 45 :: C20.fmtNat n.natAbs else C20.fmtNat n.natAbs
+
+/-- `LoadCothority` (suite defaulting) + `GetServerIdentity` -/
+def getServerIdentity (suites : List Suite) (reg : List (Str × Suite)) (hc : PrivCfg) : Res ServerId :=
+  match findSuite suites (defaultSuite hc.suite) with
+  | none => .err
+  | some S =>
+    match getHex hc.priv S.ssize with            -- ReadHexScalar: UnmarshalBinary's error is dropped
+    | none => .err
+    | some priv =>
+      match decPoint S hc.pub with
+      | none => .err
+      | some pub =>
+        match parseServices reg hc.services with
+        | none => .panic
+        | some svcs =>
+          let mk (url : Str) : Res ServerId :=
+            .ok { pub := pub, ptype := S.ptype, services := svcs, address := hc.address,
+                  description := hc.description, url := url, priv := some priv }
+          if hc.wsKey ≠ [] then
+            -- strings.Replace(hc.URL, "http://", "https://", 0) replaces nothing
+            if hc.url ≠ [] then mk hc.url
+            else match C20.atoi ((C20.port hc.address).getD []) with
+              | none => .err
+              | some p =>
+                mk (httpsPrefix ++ (C20.host hc.address).getD [] ++ 58 :: fmtInt (p + 1))
+          else mk hc.url
+
+/-! ### line-protocol driver -/
 namespace Drv
-/-- line-protocol driver state for C18 -/
-abbrev State := Unit
-def init : State := ()
-/-- one line in (tokens after the property prefix), new state and one line out -/
-def step (s : State) (_toks : List String) : State × String := (s, "bad-op")
+
+structure State where
+  suites  : List Suite := []
+  reg     : List (Str × Suite) := []
+  servers : List ServerToml := []
+
+def init : State := {}
+
+def hx (s : String) : Option Str := Util.unhex s
+
+def showSvc (s : SvcId) : String :=
+  s!"{Util.hex s.name}:{Util.hex s.suite}:{Util.hex s.pub}:{Util.hex s.priv}"
+
+def showServer (s : ServerId) : String :=
+  let svcs := if s.services.isEmpty then "-" else "/".intercalate (s.services.map showSvc)
+  let priv := match s.priv with | none => "none" | some p => Util.hex p
+  s!"pub={Util.hex s.pub},addr={Util.hex s.address},desc={Util.hex s.description},url={Util.hex s.url},priv={priv},svcs={svcs}"
+
+def showGroup (g : List ServerId) : String :=
+  "ok " ++ ";".intercalate (g.map showServer) ++ " pre=" ++ Util.hex (rosterPre g)
+
+def showRes (r : Res (List ServerId)) : String :=
+  match r with
+  | .ok g => showGroup g
+  | .err => "err"
+  | .panic => "panic"
+
+def parseBool (s : String) : Option Bool :=
+  if s = "1" then some true else if s = "0" then some false else none
+
+/-- `name:suite:pub:ok:priv` (hex fields) -/
+def parseSvc (t : String) : Option SvcCfg :=
+  match t.splitOn ":" with
+  | [n, su, p, ok, pr] =>
+    match hx n, hx su, hx p, parseBool ok, hx pr with
+    | some n, some su, some p, some ok, some pr =>
+      some { name := n, suite := su, pub := { s := p, ok := ok }, priv := pr }
+    | _, _, _, _, _ => none
+  | _ => none
+
+def parseSvcs (t : String) : Option (List SvcCfg) :=
+  if t = "-" then some [] else (t.splitOn ",").mapM parseSvc
+
+/-- `name:psize:ssize:ptype` with the name in hex -/
+def parseSuite (t : String) : Option Suite :=
+  match t.splitOn ":" with
+  | [n, p, s, ty] =>
+    match hx n, p.toNat?, s.toNat?, ty.toNat? with
+    | some n, some p, some s, some ty => some { name := n, psize := p, ssize := s, ptype := ty }
+    | _, _, _, _ => none
+  | _ => none
+
+/-- ops: `suites <name:psize:ssize:ptype,…>`, `reg <svc=suite,…|->`, `text <hex>` (the file, ignored by
+the model), `server <addr> <suite> <pub> <pubok> <desc> <url> <svcs>`, `readgroup <n> <child>`,
+`writeread <suite> <n>`, `private <suite> <pub> <pubok> <priv> <addr> <desc> <url> <wskey> <svcs> <n> <child>` -/
+def step (s : State) (toks : List String) : State × String :=
+  match toks with
+  | ["suites", l] =>
+    match (l.splitOn ",").mapM parseSuite with
+    | some su => ({ s with suites := su }, "ok")
+    | none => (s, "bad-op")
+  | ["reg", l] =>
+    if l = "-" then ({ s with reg := [] }, "ok") else
+    let ent (t : String) : Option (Str × Suite) :=
+      match t.splitOn "=" with
+      | [n, su] =>
+        match hx n, hx su with
+        | some n, some su => (s.suites.find? (·.name == su)).map fun S => (n, S)
+        | _, _ => none
+      | _ => none
+    match (l.splitOn ",").mapM ent with
+    | some r => ({ s with reg := r }, "ok")
+    | none => (s, "bad-op")
+  | ["text", t] =>
+    match hx t with
+    | some _ => ({ s with servers := [] }, "ok")
+    | none => (s, "bad-op")
+  | ["server", a, su, p, ok, d, u, sv] =>
+    match hx a, hx su, hx p, parseBool ok, hx d, hx u, parseSvcs sv with
+    | some a, some su, some p, some ok, some d, some u, some sv =>
+      ({ s with servers := s.servers ++ [{ address := a, suite := su, pub := { s := p, ok := ok },
+                                           description := d, url := u, services := sv }] }, "ok")
+    | _, _, _, _, _, _, _ => (s, "bad-op")
+  | ["readgroup", n, ch] =>
+    match n.toNat?, parseBool ch with
+    | some _, some _ => (s, showRes (readGroup s.suites s.reg s.servers))
+    | _, _ => (s, "bad-op")
+  | ["writeread", su, n] =>
+    match hx su, n.toNat? with
+    | some su, some _ =>
+      match s.suites.find? (·.name == su) with
+      | none => (s, "bad-op")
+      | some S =>
+        match readGroup s.suites s.reg s.servers with
+        | .ok g =>
+          match writeGroup S s.reg g with
+          | some ts => (s, showRes (readGroup s.suites s.reg ts))
+          | none => (s, "panic")
+        | .err => (s, "err")
+        | .panic => (s, "panic")
+    | _, _ => (s, "bad-op")
+  | ["private", su, p, ok, pr, a, d, u, wk, sv, n, ch] =>
+    match hx su, hx p, parseBool ok, hx pr, hx a, hx d, hx u with
+    | some su, some p, some ok, some pr, some a, some d, some u =>
+      match hx wk, parseSvcs sv, n.toNat?, parseBool ch with
+      | some wk, some sv, some _, some _ =>
+        let hc : PrivCfg := { suite := su, pub := { s := p, ok := ok }, priv := pr, address := a,
+                              description := d, url := u, wsKey := wk, services := sv }
+        (s, match getServerIdentity s.suites s.reg hc with
+            | .ok si => showGroup [si]
+            | .err => "err"
+            | .panic => "panic")
+      | _, _, _, _ => (s, "bad-op")
+    | _, _, _, _, _, _, _ => (s, "bad-op")
+  | _ => (s, "bad-op")
+
 end Drv
 
 end C18
